@@ -16,6 +16,59 @@ BOUNDS = {"quick": int(os.environ.get("VERIF_L_QUICK_N", "5")), "thorough": int(
 DEEP_ALPHABET = "{}:.*$01 a?x"
 DEEP_BOUNDS = {"quick": int(os.environ.get("VERIF_L_QUICK_DEEP", "7")), "thorough": int(os.environ.get("VERIF_L_THOROUGH_DEEP", "8"))}
 
+# third pass: still longer literals, constrained to a *structured* language - a DFA over (text | placeholder)* with text = ' ',
+# placeholder = `{` [0|1|a] [`:` [#] [1|1$|a$] [.1|.1$|.a$|.*] [?|x|x?]] `}` - i.e. the well-formed literals that exercise argument
+# resolution (explicit / implicit / named arguments, `$` references, `.*`), whose interplay needs two or three placeholders.
+# The bytes stay symbolic; the DFA is a z3 constraint over them (state variables per position).
+STRUCT_BOUNDS = {"quick": (8, int(os.environ.get("VERIF_L_QUICK_STRUCT", "9"))), "thorough": (9, int(os.environ.get("VERIF_L_THOROUGH_STRUCT", "11")))}
+
+
+def struct_dfa():
+    T = {}
+
+    def add(q, c, r):
+        assert (q, c) not in T
+        T[(q, c)] = r
+    add(0, ' ', 0); add(0, '{', 1)
+    for c in '01a':
+        add(1, c, 2)
+    add(1, ':', 3); add(1, '}', 0)
+    add(2, ':', 3); add(2, '}', 0)
+    stages = {3: [('#', 7)], 7: [('1', 8), ('a', 9)], 10: [('.', 11)], 14: [('?', 16), ('x', 15)]}
+    order = [3, 7, 10, 14]
+    for i, q in enumerate(order):
+        for q2 in order[i:]:
+            for c, r in stages[q2]:
+                if (q, c) not in T:
+                    add(q, c, r)
+        add(q, '}', 0)
+    add(8, '$', 10)
+    for q2 in (10, 14):
+        for c, r in stages[q2]:
+            add(8, c, r)
+    add(8, '}', 0)
+    add(9, '$', 10)
+    add(11, '1', 12); add(11, 'a', 13); add(11, '*', 14)
+    add(12, '$', 14)
+    for c, r in stages[14]:
+        add(12, c, r)
+    add(12, '}', 0)
+    add(13, '$', 14)
+    add(15, '?', 16); add(15, '}', 0)
+    add(16, '}', 0)
+    return T
+
+
+def struct_constraint(z3, bs):
+    T = struct_dfa()
+    n = len(bs)
+    ss = [z3.BitVec("q%d" % i, 8) for i in range(n + 1)]
+    cs = [ss[0] == 0, ss[n] == 0]
+    for i in range(n):
+        cs.append(z3.Or(*[z3.And(ss[i] == q, bs[i] == ord(c), ss[i + 1] == r) for (q, c), r in T.items()]))
+    return z3.And(*cs)
+
+
 FAIL_TEXT = {
     1: "std accepts the literal, derive_more's parser returns None",
     2: "different number of placeholders",
@@ -51,6 +104,9 @@ def explore(tier, prop):
     total_stats = {}
     all_recs = []
     passes = [(n, "full") for n in range(0, N + 1)] + [(n, "deep") for n in range(N + 1, DEEP_BOUNDS[tier] + 1)]
+    if prop == "C03":
+        passes += [(n, "structured") for n in range(max(STRUCT_BOUNDS[tier][0], DEEP_BOUNDS[tier] + 1), STRUCT_BOUNDS[tier][1] + 1)]
+    res["passes"] = passes
     for n, which in passes:
         outdir = os.path.join(scratch, "paths-%d" % n)
         os.makedirs(outdir)
@@ -72,8 +128,10 @@ def explore(tier, prop):
             fr.regs[names[2]] = dg.base
             if n and which == "full":
                 st.pc.append(driver.utf8_alphabet_constraint(bs, n, lambda b: z3.ULT(b, 0x80), MULTIBYTE))
-            elif n:
+            elif n and which == "deep":
                 st.pc.append(z3.And(*[z3.Or(*[b == ord(c) for c in DEEP_ALPHABET]) for b in bs]))
+            elif n:
+                st.pc.append(struct_constraint(z3, bs))
 
         def describe(kind, detail, st, m, bs=bs):
             inp = [m.eval(b, model_completion=True).as_long() for b in bs] if m is not None else None
@@ -173,6 +231,9 @@ def coverage_common(res, tier):
         "bounds": {"literal_length_bytes": "0..=%d over the full alphabet, %d..=%d over the reduced alphabet" % (BOUNDS[tier], BOUNDS[tier] + 1, DEEP_BOUNDS[tier]),
                    "alphabet": "every ASCII byte (0x00-0x7f) and the characters é (2-byte, XID_Start), U+0301 (2-byte, XID_Continue only), € (3-byte), U+1F980 (4-byte), U+00A0 and U+3000 (2- and 3-byte whitespace); well-formed UTF-8",
                    "reduced_alphabet": DEEP_ALPHABET,
+                   "structured_pass": ("lengths %s: literals of the regular language (' ' | `{` [0|1|a] [`:` [#] [1|1$|a$] [.1|.1$|.a$|.*] [?|x|x?]] `}`)*, "
+                                       "imposed on the symbolic bytes as a DFA constraint" % sorted(n for n, w in res.get("passes", []) if w == "structured"))
+                                      if any(w == "structured" for _, w in res.get("passes", [])) else "not part of this check",
                    "outside": "longer literals; other non-ASCII characters; longer literals with characters outside the reduced alphabet"},
         "per_length": L,
         "solver_time_s": round(sum(v["solver_s"] for v in L.values()), 1),
